@@ -1,34 +1,33 @@
-"""C04 — a socket connection stays usable after any call outcome (server dispatch kernel).
+"""C04 — a socket connection stays usable after any call outcome (dispatch kernel, "who waits for whom").
 
-Kernel: the real ``RpcServer.serve_one`` / ``_serve_unary`` / ``_serve_stream`` / ``_read_request`` and the
-real client code (``_send_request``/``_write_request``, ``_read_stream_header``, ``_read_unary_response`` and
-the real ``StreamSession.tick/exchange/close/cancel``) run on in-memory transports with concrete pyarrow.
-The server is the thread of control; its read end is demand-driven: when it runs dry the client — the real
-client code cut at its blocking reads — makes progress first: it reads the stream header (if declared) and
-only then writes its input IPC stream (k ticks / exchanges, optionally a cancel batch, EOS); if the client
-cannot add bytes while the server waits, that is a hang.  The input stream is written in one piece, which
-over-approximates the lock-step client (it stops ticking at the first error / finish): the server drains
-what it does not process, so the byte positions after the call are the same.  The read side of a stream call
-is then done by a real ``StreamSession`` driven through the same API calls; what it writes meanwhile goes to
-a scratch buffer that must equal the bytes sent earlier whenever all k steps were performed (model check).
+Kernel: the real ``RpcServer.serve`` loop (``serve_one`` / ``_serve_unary`` / ``_serve_stream`` /
+``_read_request``) and the real client (``_RpcProxy`` stubs, ``StreamSession.tick/exchange/close/cancel``,
+``_read_stream_header``, ``_read_unary_response``; raw ``_write_request`` only for malformed requests) run as
+two blocking parties on a deterministic in-memory network with concrete pyarrow: two byte channels with
+unbounded buffers, blocking reads, and a monitor that knows, for each party, whether it is running, blocked
+in a read (and for how many bytes) or finished.  This is a Kahn network — the outcome does not depend on the
+thread schedule — so a *wait-for cycle* (server blocked on client bytes that the client only sends after
+reading the server's answer, or a client blocked on an answer after the serve loop ended) is detected
+exactly and immediately, instead of being masked by pre-buffered input.
 
-Symbolic: the *fault script* — small ints/bools steering a concrete test service and the client
-behaviour.  The solver's role is the case split over this finite fault grid (stated in BOUNDS); every
+Symbolic: the *script* — small ints/bools choosing method shape, fault kind/position, client behaviour
+(k ticks/exchanges, then close or cancel), the position at which the client's ``on_log`` callback raises, and
+the follow-up call.  The solver's role is the case split over this finite grid (stated in BOUNDS); every
 path below the split is fully concrete and is executed with CrossHair's tracer switched off (``NoTracing``),
 because tracing the ~10^5 bytecodes of a dispatch costs seconds per path and decides nothing more.
 
 Asserted per script:
-  1. ``serve_one`` returns, or raises only a class the ``RpcServer.serve`` loop treats as end of
-     connection (read from the ``except`` clauses of ``serve`` with ``ast`` at run time) — and since the
-     client always sends complete calls, even those are reported;
-  2. neither side is left waiting: the server never asks for input the client will not send, the
-     response bytes are complete IPC streams and the real client readers consume exactly all of them;
-  3. the server consumed exactly what the client wrote (no bytes left over on either side at the end);
-  4. a faulty call is answered with an ``RpcError`` whenever the client asks for a result;
-  5. a second, well-formed call on the same buffers (unary or stream, symbolic) gets its own answer.
+  1. nobody waits forever: no wait-for cycle, and no party blocked on a peer that has stopped
+     (a ``serve`` loop that ends — by an exception it does not handle *or* one it treats as end of
+     connection, classes read from its ``except`` clauses with ``ast`` — while the client still has a
+     complete call outstanding is reported);
+  2. a faulty call is answered with an ``RpcError`` whenever the client asks for a result;
+  3. the next, well-formed call on the same connection (unary or stream, symbolic) gets its own answer;
+  4. at quiescence (server idle, waiting for the next request with nothing unread) the client has no
+     unread response bytes either — both directions are aligned.
 
-Real replay: ``make_pipe_pair`` + ``RpcServer.serve`` in a thread + the real client proxy /
-``StreamSession`` API (raw ``_write_request`` only for malformed requests), with a watchdog for hangs.
+Real replay: the *same client script* over ``make_pipe_pair`` + ``RpcServer.serve`` in a thread, with a
+watchdog for hangs.
 """
 
 from __future__ import annotations
@@ -49,14 +48,13 @@ from engine.api import HarnessModelError, cond, pick
 from engine.reglob import reglobalize
 
 from vgi_rpc.log import Level
-from vgi_rpc.metadata import CANCEL_KEY
 from vgi_rpc.rpc import _client as cli
 from vgi_rpc.rpc import _server as srv
 from vgi_rpc.rpc import _wire as wire
-from vgi_rpc.rpc._common import _EMPTY_SCHEMA, RpcError
+from vgi_rpc.rpc._common import RpcError
 from vgi_rpc.rpc._transport import make_pipe_pair
 from vgi_rpc.rpc._types import ExchangeState, ProducerState, Stream, rpc_methods
-from vgi_rpc.utils import ArrowSerializableDataclass, IpcValidation, ValidatedReader, empty_batch, new_ipc_stream
+from vgi_rpc.utils import ArrowSerializableDataclass, IpcValidation, ValidatedReader
 
 PROPERTY = "C04"
 ENCODED = [
@@ -69,8 +67,11 @@ ENCODED = [
     wire._read_header_batch,
     wire._read_unary_response,
     wire._read_batch_with_log_check,
+    wire._dispatch_log_or_error,
     wire._drain_stream,
     wire._write_error_stream,
+    cli._RpcProxy._make_unary_caller,
+    cli._RpcProxy._make_stream_caller,
     cli.StreamSession.tick,
     cli.StreamSession.exchange,
     cli.StreamSession.close,
@@ -79,24 +80,25 @@ ENCODED = [
 _K = pick(3, 5)  # max ticks / exchanges the client sends
 _TOTAL = 2  # items the test producer yields before finishing
 BOUNDS = (
-    "finite fault grid, enumerated by the solver's case split: method shape {unary, producer, producer+header, "
+    "finite grid, enumerated by the solver's case split: method shape {unary, producer, producer+header, "
     "exchange} x fault kind {none, method raises, non-Stream return, declared header None, process raises, process "
     "logs then raises, unknown method, bad request version, protocol-version mismatch/absent, bad parameter "
-    "schema, None for a required parameter} x fault position {init, step 1..3} x client {0..%d ticks then close | "
-    "then cancel}; one faulty call followed by one well-formed call {unary | producer stream}; producer yields %d items"
+    "schema, None for a required parameter} x fault position {init, step 1..3} x client {0..%d ticks/exchanges in "
+    "lock-step, then close | cancel} x client on_log callback raising at log message {never, 1..4} {once | from then on}; one such call "
+    "followed by one well-formed call {unary | producer stream}; producer yields %d items; unbounded channel buffers"
     % (_K, _TOTAL)
 )
 OUTSIDE = (
-    "real pipes/sockets/subprocess and OS buffering (exercised only in replays); a client that abandons a session "
-    "without close()/cancel(); exceptions raised by the client's on_log callback; shared-memory and external-location "
-    "side channels; two consecutive faulty calls; a header-less stream *client* whose request the server rejects "
-    "before it can know the method (unknown method / wrong request version): the server cannot learn that an input "
-    "stream will follow, so that desynchronisation is not decidable server-side and is not claimed"
+    "real pipes/sockets/subprocess and OS buffering (exercised only in replays) — in particular dead-locks that need "
+    "a *full* pipe buffer (both sides blocked in write); a client that abandons a session without close()/cancel(); "
+    "shared-memory and external-location side channels; two consecutive faulty calls; a header-less stream *client* "
+    "whose request the server rejects before it can know the method (unknown method / wrong request version): the "
+    "server cannot learn that an input stream will follow, so that desynchronisation is not decidable server-side "
+    "and is not claimed"
 )
 ASSUMPTIONS = [
-    "in-memory transports deliver bytes in order and completely (stands for the pipe/socket)",
-    "the client's input stream is written in one piece when the server first waits for it (over-approximates the "
-    "lock-step client; sound because the server drains unprocessed input)",
+    "in-memory channels deliver bytes in order, completely, and writes never block (stands for the pipe/socket)",
+    "client and server are deterministic sequential parties (Kahn network): verdicts do not depend on the schedule",
 ]
 
 # ---------------------------------------------------------------------------
@@ -131,7 +133,7 @@ def _loop_ending_classes() -> tuple[type, ...]:
 LOOP_ENDING = _loop_ending_classes()
 
 # ---------------------------------------------------------------------------
-# fault script + test service
+# script + test service
 # ---------------------------------------------------------------------------
 
 # method shapes
@@ -148,16 +150,37 @@ _KIND_NAME = {
 _REQUEST_LEVEL = (UNKNOWN_METHOD, BAD_REQ_VERSION, PROTO_MISMATCH, PROTO_ABSENT, BAD_SCHEMA, NONE_PARAM)
 
 
-class _Script:
-    """The concrete fault script of the current path (set by the condition before any repo code runs)."""
+@dataclass(frozen=True)
+class Script:
+    """One concrete point of the grid."""
 
-    kind = NONE
-    pos = 0
-    ret = 0  # NON_STREAM: 0 -> None, 1 -> 42
-    armed = False  # faults fire only during the first call
+    shape: int
+    kind: int = NONE
+    pos: int = 0
+    ret: int = 0  # NON_STREAM: 0 -> None, 1 -> 42
+    k: int = 0
+    cancel: bool = False
+    second_is_stream: bool = False
+    log_at: int = 0  # 0: the client's on_log never raises; n: it raises on the n-th message (the service then logs)
+    log_sticky: bool = False  # True: it keeps raising on every later message too
+
+    def describe(self) -> str:
+        s = f"{_SHAPE_NAME[self.shape]} / {_KIND_NAME[self.kind]}" + (f" at step {self.pos}" if self.pos else "")
+        if self.shape != UNARY:
+            s += f", client: {self.k} tick(s) then {'cancel' if self.cancel else 'close'}"
+        if self.log_at:
+            s += f", on_log raises at message {self.log_at}" + (" and every later one" if self.log_sticky else "")
+        return s
 
 
-S = _Script()
+class _Live:
+    """What the test service reads while it runs (set per path, before any repo code runs)."""
+
+    script = Script(UNARY)
+    armed = False  # faults / logs fire only during the first call
+
+
+S = _Live()
 
 
 @dataclass(frozen=True)
@@ -168,12 +191,19 @@ class Hdr(ArrowSerializableDataclass):
 _OUT = pa.schema([pa.field("v", pa.int64())])
 
 
-def _step_fault(call_no: int, out: Any) -> None:
-    if not S.armed or S.pos != call_no:
+def _logs_on() -> bool:
+    return S.armed and S.script.log_at > 0
+
+
+def _step(call_no: int, out: Any) -> None:
+    if _logs_on():
+        out.client_log(Level.INFO, f"step {call_no}")
+    sc = S.script
+    if not S.armed or sc.pos != call_no:
         return
-    if S.kind == STEP_RAISE:
+    if sc.kind == STEP_RAISE:
         raise ValueError("step boom")
-    if S.kind == STEP_LOG_RAISE:
+    if sc.kind == STEP_LOG_RAISE:
         out.client_log(Level.INFO, "about to fail")
         raise ValueError("step boom after log")
 
@@ -185,7 +215,7 @@ class ProdState(ProducerState):
 
     def produce(self, out: Any, ctx: Any) -> None:
         self.calls += 1
-        _step_fault(self.calls, out)
+        _step(self.calls, out)
         if self.left <= 0:
             out.finish()
             return
@@ -199,7 +229,7 @@ class ExchState(ExchangeState):
 
     def exchange(self, input: Any, out: Any, ctx: Any) -> None:
         self.calls += 1
-        _step_fault(self.calls, out)
+        _step(self.calls, out)
         out.emit_pydict({"v": [input.batch.column("v")[0].as_py() + 100]})
 
 
@@ -223,37 +253,43 @@ class Impl:
     def count(self, n: int) -> Any:
         return Stream(output_schema=_OUT, state=ProdState(n))
 
-    def flaky(self, a: int) -> Any:
-        if S.armed and S.kind == RAISES:
+    def flaky(self, a: int, ctx: Any = None) -> Any:
+        if _logs_on():
+            ctx.client_log(Level.INFO, "unary log 1")
+            ctx.client_log(Level.INFO, "unary log 2")
+        if S.armed and S.script.kind == RAISES:
             raise ValueError("unary boom")
-        if S.armed and S.kind == RETURNS_NONE:
+        if S.armed and S.script.kind == RETURNS_NONE:
             return None
         return a + 1
 
-    def _init_fault(self) -> Any:
-        if S.armed and S.pos == 0:
-            if S.kind == RAISES:
+    def _init(self, ctx: Any) -> Any:
+        if _logs_on():
+            ctx.client_log(Level.INFO, "init log")
+        sc = S.script
+        if S.armed and sc.pos == 0:
+            if sc.kind == RAISES:
                 raise ValueError("init boom")
-            if S.kind == NON_STREAM:
-                return (None, True) if S.ret == 0 else (42, True)
+            if sc.kind == NON_STREAM:
+                return (None, True) if sc.ret == 0 else (42, True)
         return (None, False)
 
-    def prod(self, n: int) -> Any:
-        v, hit = self._init_fault()
+    def prod(self, n: int, ctx: Any = None) -> Any:
+        v, hit = self._init(ctx)
         if hit:
             return v
         return Stream(output_schema=_OUT, state=ProdState(n))
 
-    def prod_h(self, n: int) -> Any:
-        v, hit = self._init_fault()
+    def prod_h(self, n: int, ctx: Any = None) -> Any:
+        v, hit = self._init(ctx)
         if hit:
             return v
-        if S.armed and S.kind == HEADER_NONE:
+        if S.armed and S.script.kind == HEADER_NONE:
             return Stream(output_schema=_OUT, state=ProdState(n))
         return Stream(output_schema=_OUT, state=ProdState(n), header=Hdr(n))
 
-    def exch(self, n: int) -> Any:
-        v, hit = self._init_fault()
+    def exch(self, n: int, ctx: Any = None) -> Any:
+        v, hit = self._init(ctx)
         if hit:
             return v
         return Stream(output_schema=_OUT, state=ExchState(), input_schema=_OUT)
@@ -265,7 +301,7 @@ _write_request_badver = reglobalize(wire._write_request, REQUEST_VERSION=b"\xff-
 
 
 def _write_first_request(writer: Any, shape: int, kind: int) -> None:
-    """Call 1's request, written with the real client writer (malformed variants via the same function)."""
+    """A malformed / refused request 1, written with the real client writer."""
     info = _METHODS[_SHAPE_NAME[shape]]
     arg = {"a": 1} if shape == UNARY else {"n": _TOTAL}
     if kind == UNKNOWN_METHOD:
@@ -283,144 +319,25 @@ def _write_first_request(writer: Any, shape: int, kind: int) -> None:
         nullable = pa.schema([pa.field(f.name, f.type, nullable=True) for f in info.params_schema])
         wire._write_request(writer, info.name, nullable, {}, protocol_version=_PROTO)
     else:
-        wire._send_request(writer, info, arg, protocol_version=_PROTO)
-
-
-def _write_input_stream(writer: Any, shape: int, k: int, cancel: bool) -> None:
-    """What StreamSession writes for k ticks/exchanges followed by close() or cancel() (same calls, same order)."""
-    schema = _OUT if shape == EXCH else _EMPTY_SCHEMA
-    if k == 0 and not cancel:
-        with new_ipc_stream(writer, _EMPTY_SCHEMA):  # StreamSession.close() on a never-used session
-            return
-    if k == 0:
-        schema = _EMPTY_SCHEMA  # StreamSession.cancel() on a never-used session
-    w = new_ipc_stream(writer, schema)
-    for j in range(k):
-        if shape == EXCH:
-            w.write_batch(pa.RecordBatch.from_pydict({"v": [j]}, schema=_OUT))
-        else:
-            w.write_batch(empty_batch(_EMPTY_SCHEMA))
-    if cancel:
-        w.write_batch(empty_batch(schema), custom_metadata=pa.KeyValueMetadata({CANCEL_KEY: b"1"}))
-    w.close()
+        raise ValueError(kind)
 
 
 # ---------------------------------------------------------------------------
-# in-memory connection: server reader is demand-driven by the client state machine
+# the client script (shared by the in-memory kernel and the real-pipe replay)
 # ---------------------------------------------------------------------------
 
 
-class _Hang(Exception):
-    pass
+class _CallbackBoom(Exception):
+    """Raised by the client's own on_log callback."""
 
 
-class _DemandReader(io.RawIOBase):
-    """Server-side read end.  When it runs dry it asks the client to make progress first."""
-
-    def __init__(self, on_starve: Any) -> None:
-        super().__init__()
-        self.buf = bytearray()
-        self.pos = 0
-        self.on_starve = on_starve
-
-    def readable(self) -> bool:
-        return True
-
-    def feed(self, data: bytes) -> None:
-        self.buf += data
-
-    def read(self, n: int = -1) -> bytes:
-        if n is None or n < 0:
-            n = max(0, len(self.buf) - self.pos) or 1
-        while len(self.buf) - self.pos < n:
-            before = len(self.buf)
-            self.on_starve()
-            if len(self.buf) == before:
-                break
-        out = bytes(self.buf[self.pos : self.pos + n])
-        self.pos += len(out)
-        return out
-
-    def readinto(self, b: Any) -> int:
-        data = self.read(len(b))
-        b[: len(data)] = data
-        return len(data)
-
-
-class _FeedWriter(io.RawIOBase):
-    """Client-side write end: appends to the server's reader."""
-
-    def __init__(self, reader: _DemandReader) -> None:
-        super().__init__()
-        self.reader = reader
-
-    def writable(self) -> bool:
-        return True
-
-    def write(self, b: Any) -> int:
-        data = bytes(b)
-        self.reader.feed(data)
-        return len(data)
-
-
-class _ResponseReader(io.RawIOBase):
-    """Client-side read end over the bytes the server has written so far (like the pipe: reads consume)."""
-
-    def __init__(self, conn: "_Conn") -> None:
-        super().__init__()
-        self.conn = conn
-        self.starved = False  # a real client would be blocked in read() here
-
-    def readable(self) -> bool:
-        return True
-
-    def read(self, n: int = -1) -> bytes:
-        data = self.conn.writer.getvalue()
-        avail = len(data) - self.conn.client_pos
-        if n is None or n < 0:
-            n = avail
-        if n > avail:
-            self.starved = True
-        out = data[self.conn.client_pos : self.conn.client_pos + n]
-        self.conn.client_pos += len(out)
-        return out
-
-    def readinto(self, b: Any) -> int:
-        data = self.read(len(b))
-        b[: len(data)] = data
-        return len(data)
-
-
-class _Conn:
-    """One connection: server transport (.reader/.writer) plus the client's two ends."""
-
-    def __init__(self, client: "_Client") -> None:
-        self.reader = _DemandReader(client.on_server_starved)
-        self.writer = io.BytesIO()  # server -> client
-        self.c2s = _FeedWriter(self.reader)
-        self.client_pos = 0  # how far the client has consumed the response bytes
-        self.rx = _ResponseReader(self)
-
-    def close(self) -> None:  # RpcTransport protocol
-        pass
-
-    def unread_response(self) -> int:
-        return len(self.writer.getvalue()) - self.client_pos
-
-    def unread_request(self) -> int:
-        return len(self.reader.buf) - self.reader.pos
-
-
-def _drive_session(session: Any, shape: int, k: int, cancel: bool, seen: dict) -> None:
-    """A client using a stream: k ticks/exchanges, then close() or cancel() — the real StreamSession API.
-
-    Shared by the in-memory kernel and the real-pipe replay.  RpcError propagates after close/cancel.
-    """
+def _drive_session(session: Any, sc: Script, seen: dict) -> None:
+    """A client using a stream: k ticks/exchanges in lock-step, then close() or cancel() — the public API."""
     from vgi_rpc.rpc import AnnotatedBatch
 
     try:
-        for j in range(k):
-            if shape == EXCH:
+        for j in range(sc.k):
+            if sc.shape == EXCH:
                 session.exchange(AnnotatedBatch.from_pydict({"v": [j]}, schema=_OUT))
             else:
                 session.tick()
@@ -428,158 +345,230 @@ def _drive_session(session: Any, shape: int, k: int, cancel: bool, seen: dict) -
     except StopIteration:
         seen["finished"] = True
     finally:
-        if cancel:
+        if sc.cancel:
             session.cancel()
         else:
             session.close()
 
 
-class _Client:
-    """The real client code, cut at its blocking reads (phases), for: faulty call 1, then good call 2.
+def _client_script(transport: Any, sc: Script, out: dict, quiesce: Any = None) -> None:
+    """Faulty call 1, then good call 2, on one connection; ``out`` collects what the client observed."""
+    from vgi_rpc.rpc import RpcConnection
 
-    Writes happen when the server first waits for them (request, then the whole input stream); reads are done
-    by the real client objects (``_read_stream_header``, ``StreamSession.tick/exchange/close/cancel``,
-    ``_read_unary_response``) once the server has produced the bytes.  While a real ``StreamSession`` replays
-    its calls for the read side, what it writes goes to a scratch buffer that is compared with what was sent.
-    """
+    def on_log(msg: Any) -> None:
+        out["nlogs"] = out.get("nlogs", 0) + 1
+        if sc.log_at and (out["nlogs"] == sc.log_at or (sc.log_sticky and out["nlogs"] > sc.log_at)):
+            raise _CallbackBoom(f"on_log boom at message {sc.log_at}")
 
-    def __init__(self, shape: int, kind: int, k: int, cancel: bool, second_is_stream: bool) -> None:
-        self.shape, self.kind, self.k, self.cancel, self.second_is_stream = shape, kind, k, cancel, second_is_stream
-        self.conn = _Conn(self)
-        self.phase = "start"
-        self.hang = ""  # non-empty: somebody would wait forever
-        self.model = ""  # non-empty: the harness' own client model is off (inconclusive, not a verdict)
-        self.errors1: list[str] = []  # RpcErrors observed in call 1
-        self.seen1: dict = {}
-        self.result1: Any = None
-        self.result2: Any = None
-        self.error2 = ""
-        self.header1: Any = None
-        self.sent_input1 = b""
-        self.in_call = 0
-
-    def _blocked(self, where: str) -> bool:
-        if self.conn.rx.starved:
-            self.hang = f"client blocked reading {where}: the server wrote an incomplete answer"
-            self.phase = "dead"
-            return True
-        return False
-
-    # -- call 1 ---------------------------------------------------------------
-    def send_first(self) -> None:
-        _write_first_request(self.conn.c2s, self.shape, self.kind)
-        self.phase = "sent1"
-        self.in_call = 1
-
-    def _after_request1(self) -> None:
-        """Client code between sending request 1 and its first read of the output stream."""
-        if self.shape == UNARY:
-            self.phase = "await1"
-            return
-        if self.shape == PROD_H:
-            try:
-                self.header1 = wire._read_stream_header(self.conn.rx, Hdr, IpcValidation.FULL, None, None)
-            except RpcError as e:
-                if self._blocked("the stream header"):
-                    return
-                self.errors1.append(e.error_type)
-                self.phase = "done1"  # the stub call raised: no session, nothing more is sent
-                return
-            except (pa.ArrowInvalid, EOFError, OSError, StopIteration) as e:
-                self.hang = f"client blocked reading the stream header ({type(e).__name__})"
-                self.phase = "dead"
-                return
-        before = len(self.conn.reader.buf)
-        _write_input_stream(self.conn.c2s, self.shape, self.k, self.cancel)
-        self.sent_input1 = bytes(self.conn.reader.buf[before:])
-        self.phase = "await1"
-
-    def _consume_output1(self) -> None:
-        """The client reads call 1's answer to the end, with the real client objects."""
-        if self.shape == UNARY:
-            try:
-                reader = ValidatedReader(ipc.open_stream(self.conn.rx), IpcValidation.FULL)
-                self.result1 = wire._read_unary_response(reader, _METHODS["flaky"], None, None)
-            except RpcError as e:
-                self.errors1.append(e.error_type)
-            except (pa.ArrowInvalid, EOFError, OSError, StopIteration) as e:
-                self.hang = f"client blocked reading the answer of call 1 ({type(e).__name__})"
-                self.phase = "dead"
-                return
-        else:
-            scratch = io.BytesIO()
-            session = cli.StreamSession(scratch, self.conn.rx, None, header=self.header1)
-            try:
-                _drive_session(session, self.shape, self.k, self.cancel, self.seen1)
-            except RpcError as e:
-                self.errors1.append(e.error_type)
-            if self.seen1.get("batches", 0) == self.k and not self.errors1 and scratch.getvalue() != self.sent_input1:
-                self.model = "input stream written by the harness differs from what the real StreamSession writes"
-        if self._blocked("the answer of call 1"):
-            return
-        self.phase = "done1"
-
-    # -- call 2 ---------------------------------------------------------------
-    def _send_second(self) -> None:
-        self.in_call = 2
-        if self.second_is_stream:
-            wire._send_request(self.conn.c2s, _METHODS["count"], {"n": 1}, protocol_version=_PROTO)
-            self.phase = "sent2"
-        else:
-            wire._send_request(self.conn.c2s, _METHODS["add"], {"a": 2, "b": 3}, protocol_version=_PROTO)
-            self.phase = "await2"
-
-    def _after_request2(self) -> None:
-        _write_input_stream(self.conn.c2s, PROD, 2, False)  # list(session): tick, tick (-> finished), close
-        self.phase = "await2"
-
-    def _consume_output2(self) -> None:
+    with RpcConnection(Svc, transport, on_log=on_log if sc.log_at else None) as proxy:
+        out["stage"] = "call 1"
         try:
-            if self.second_is_stream:
-                session = cli.StreamSession(io.BytesIO(), self.conn.rx, None)
-                self.result2 = [ab.batch.column("v")[0].as_py() for ab in session]
+            try:
+                if sc.kind in _REQUEST_LEVEL:
+                    _write_first_request(transport.writer, sc.shape, sc.kind)
+                    info = _METHODS[_SHAPE_NAME[sc.shape]]
+                    if sc.shape == UNARY:
+                        wire._read_unary_response(ValidatedReader(ipc.open_stream(transport.reader), IpcValidation.FULL), info, None, None)
+                        session = None
+                    else:
+                        header = wire._read_stream_header(transport.reader, Hdr, IpcValidation.FULL, None, None) if sc.shape == PROD_H else None
+                        session = cli.StreamSession(transport.writer, transport.reader, None, header=header)
+                elif sc.shape == UNARY:
+                    out["res1"] = proxy.flaky(a=1)
+                    session = None
+                else:
+                    session = getattr(proxy, _SHAPE_NAME[sc.shape])(n=_TOTAL)
+                if session is not None:
+                    _drive_session(session, sc, out)
+            except RpcError as e:
+                out["err1"] = e.error_type
+            except _CallbackBoom:
+                out["cb1"] = True
+        finally:
+            S.armed = False
+        out["stage"] = "call 2"
+        try:
+            if sc.second_is_stream:
+                out["res2"] = [ab.batch.column("v")[0].as_py() for ab in proxy.count(n=1)]
             else:
-                reader = ValidatedReader(ipc.open_stream(self.conn.rx), IpcValidation.FULL)
-                self.result2 = wire._read_unary_response(reader, _METHODS["add"], None, None)
+                out["res2"] = proxy.add(a=2, b=3)
         except RpcError as e:
-            self.error2 = f"{e.error_type}: {str(e)[:120]}"
-        except (pa.ArrowInvalid, EOFError, OSError, StopIteration) as e:
-            how = "blocked reading" if self.conn.rx.starved else "cannot parse (bytes left over from call 1?)"
-            self.hang = f"client {how} the answer of call 2 ({type(e).__name__}: {str(e)[:60]})"
-            self.phase = "dead"
-            return
-        if self._blocked("the answer of call 2"):
-            return
-        self.phase = "done2"
+            out["err2"] = f"{e.error_type}: {str(e)[:120]}"
+        out["stage"] = "done"
+        if quiesce is not None:
+            out["unread_at_quiescence"] = quiesce()
 
-    # -- scheduling -----------------------------------------------------------
-    def advance(self) -> None:
-        """Run the client as far as it can go without bytes the server has not written yet."""
-        while True:
-            p = self.phase
-            if p == "sent1":
-                self._after_request1()
-            elif p == "await1":
-                if self.conn.unread_response() == 0:
-                    return
-                self._consume_output1()
-            elif p == "done1":
-                self._send_second()
-            elif p == "sent2":
-                self._after_request2()
-            elif p == "await2":
-                if self.conn.unread_response() == 0:
-                    return
-                self._consume_output2()
-            else:
-                return
 
-    def on_server_starved(self) -> None:
-        """The server is blocked in a read.  Let the client run; if it cannot add bytes, both sides wait."""
-        before = len(self.conn.reader.buf)
-        self.advance()
-        if len(self.conn.reader.buf) == before and not self.hang:
-            self.hang = f"server waits for input during call {self.in_call} that the client will not send (client phase {self.phase})"
+def _judge(sc: Script, out: dict) -> str:
+    """'' when what the client observed satisfies the property, else what is wrong."""
+    if "crash" in out:
+        return f"client failed in {out.get('stage')} with {out['crash']}"
+    observable = _fault_observable(sc)
+    if observable and "err1" not in out and "cb1" not in out:
+        return "the faulty call was not answered with an error"
+    if not observable and "err1" in out:
+        return f"unexpected error in call 1: {out['err1']}"
+    if "err2" in out:
+        return f"the next call on the same connection was answered with {out['err2']}"
+    want: Any = [0] if sc.second_is_stream else 5
+    if out.get("res2") != want:
+        return f"the next call returned {out.get('res2')!r} instead of {want!r}"
+    if out.get("unread_at_quiescence"):
+        return f"{out['unread_at_quiescence']} response bytes nobody will read are left on the connection after both calls"
+    return ""
+
+
+def _fault_observable(sc: Script) -> bool:
+    """Does the client *observe* the fault as an RpcError (given what it asks for)?"""
+    if sc.kind == NONE:
+        return False
+    if sc.kind in (STEP_RAISE, STEP_LOG_RAISE):
+        if sc.shape == EXCH:
+            return sc.pos <= sc.k
+        return sc.pos <= sc.k and sc.pos <= _TOTAL + 1
+    if sc.shape in (PROD, EXCH):
+        # header-less stream refused before it started: the stub call returns a session; the error surfaces on
+        # the first tick()/exchange().  close()/cancel() on an unused session discard the answer by design.
+        return sc.k >= 1
+    return True
+
+
+# ---------------------------------------------------------------------------
+# deterministic in-memory network with wait-for detection
+# ---------------------------------------------------------------------------
+
+
+class _Chan:
+    def __init__(self) -> None:
+        self.buf = bytearray()
+        self.pos = 0
+        self.eof = False  # the writer closed its end
+        self.want = 0  # bytes the blocked reader is waiting for
+
+    def avail(self) -> int:
+        return len(self.buf) - self.pos
+
+
+class _Net:
+    """Monitor of the two parties.  state: run | wait (blocked in read) | idle (client only) | done."""
+
+    def __init__(self) -> None:
+        self.cond = threading.Condition()
+        self.state = {"client": "run", "server": "run"}
+        self.inbound = {"client": _Chan(), "server": _Chan()}
+        self.stuck = ""
+        self.note = {"client": "", "server": ""}
+        self.scheduler_failed = False
+
+    def _blocked(self, p: str) -> bool:
+        ch = self.inbound[p]
+        return self.state[p] == "wait" and ch.avail() < ch.want and not ch.eof
+
+    def check(self) -> None:
+        """Called with the lock held whenever a party blocks or stops."""
+        if self.stuck:
+            return
+        c, s = self._blocked("client"), self._blocked("server")
+        if c and s:
+            self.stuck = (
+                f"dead-lock: the client waits for the server's answer ({self.note['client']}) while the server waits for "
+                f"client bytes that the client only sends after reading that answer"
+            )
+        elif c and self.state["server"] == "done":
+            self.stuck = f"the client waits for an answer ({self.note['client']}) but the server's serve() has ended{self.note['server']}"
+        if self.stuck:
+            self.cond.notify_all()
+
+    def read(self, me: str, n: int) -> bytes:
+        ch = self.inbound[me]
+        with self.cond:
+            if n is None or n < 0:
+                n = max(1, ch.avail())
+            ch.want = n
+            while ch.avail() < n and not ch.eof and not self.stuck:
+                self.state[me] = "wait"
+                self.check()
+                if self.stuck:
+                    break
+                self.cond.notify_all()
+                if not self.cond.wait(timeout=30.0):
+                    self.scheduler_failed = True
+                    self.stuck = "harness scheduler timeout"
+                    self.cond.notify_all()
+                    break
+            self.state[me] = "run"
+            out = bytes(ch.buf[ch.pos : ch.pos + n])
+            ch.pos += len(out)
+            return out
+
+    def write(self, to: str, data: bytes) -> None:
+        with self.cond:
+            self.inbound[to].buf += data
+            self.cond.notify_all()
+
+    def close_write(self, to: str) -> None:
+        with self.cond:
+            self.inbound[to].eof = True
+            self.cond.notify_all()
+
+    def finish(self, me: str) -> None:
+        with self.cond:
+            self.state[me] = "done"
+            self.check()
+            self.cond.notify_all()
+
+    def client_quiesce(self) -> int:
+        """Client side: wait until the server is idle (blocked on an empty request channel) or stopped; return
+        the number of response bytes the client has not read at that moment."""
+        with self.cond:
+            while not self.stuck and self.state["server"] != "done" and not (self.state["server"] == "wait" and self.inbound["server"].avail() == 0):
+                if not self.cond.wait(timeout=30.0):
+                    self.scheduler_failed = True
+                    break
+            return self.inbound["client"].avail()
+
+
+class _ReadEnd(io.RawIOBase):
+    def __init__(self, net: _Net, me: str) -> None:
+        super().__init__()
+        self.net, self.me = net, me
+
+    def readable(self) -> bool:
+        return True
+
+    def read(self, n: int = -1) -> bytes:
+        return self.net.read(self.me, n)
+
+    def readinto(self, b: Any) -> int:
+        data = self.net.read(self.me, len(b))
+        b[: len(data)] = data
+        return len(data)
+
+
+class _WriteEnd(io.RawIOBase):
+    def __init__(self, net: _Net, to: str) -> None:
+        super().__init__()
+        self.net, self.to = net, to
+
+    def writable(self) -> bool:
+        return True
+
+    def write(self, b: Any) -> int:
+        data = bytes(b)
+        self.net.write(self.to, data)
+        return len(data)
+
+
+class _MemTransport:
+    """RpcTransport over the in-memory network."""
+
+    def __init__(self, net: _Net, me: str, peer: str) -> None:
+        self.net, self.peer = net, peer
+        self.reader = _ReadEnd(net, me)
+        self.writer = _WriteEnd(net, peer)
+
+    def close(self) -> None:
+        self.net.close_write(self.peer)
 
 
 _SERVER = srv.RpcServer(Svc, Impl(), server_id="verif", ipc_validation=IpcValidation.FULL)
@@ -595,77 +584,82 @@ def _untraced() -> Any:
         return contextlib.nullcontext()
 
 
-def _run(shape: int, kind: int, pos: int, ret: int, k: int, cancel: bool, second_is_stream: bool) -> str:
-    """Run faulty call 1 then good call 2 on one in-memory connection.  '' = property holds, else what broke."""
+def _run(sc: Script) -> str:
+    """Run the script on one in-memory connection.  '' = property holds, else what broke."""
     with _untraced():
-        for v in (shape, kind, pos, ret, k, cancel, second_is_stream):
+        for v in (sc.shape, sc.kind, sc.pos, sc.ret, sc.k, sc.cancel, sc.second_is_stream, sc.log_at, sc.log_sticky):
             if type(v) is not int and type(v) is not bool:  # (real type() here: tracing is off)
-                raise TypeError("fault script must be concrete below the case split")
-        return _run_concrete(shape, kind, pos, ret, k, cancel, second_is_stream)
+                raise TypeError("script must be concrete below the case split")
+        return _run_concrete(sc)
 
 
-def _run_concrete(shape: int, kind: int, pos: int, ret: int, k: int, cancel: bool, second_is_stream: bool) -> str:
-    S.kind, S.pos, S.ret, S.armed = kind, pos, ret, True
-    c = _Client(shape, kind, k, cancel, second_is_stream)
-    conn = c.conn
-    c.send_first()
-    # ---- serve_one #1
-    try:
-        _SERVER.serve_one(conn)  # type: ignore[arg-type]
-    except LOOP_ENDING as e:
-        return c.hang or f"serve_one ended the connection with {type(e).__name__} although the client sent a complete call"
-    except Exception as e:  # noqa: BLE001
-        return c.hang or f"serve_one raised {type(e).__name__} ({str(e)[:80]}) — not a class the serve loop handles, no error stream: connection dies silently"
-    finally:
-        S.armed = False
-    if c.hang:
-        return c.hang
-    c.advance()  # client reads the rest of call 1 and sends call 2
-    if c.hang:
-        return c.hang
-    if c.model:
-        raise HarnessModelError(c.model)
-    if c.in_call != 2:
-        return f"client still inside call 1 after serve_one returned (phase {c.phase})"
-    if _fault_reached(shape, kind, pos, k) and not c.errors1:
-        return "the faulty call was not answered with an error"
-    if not _fault_reached(shape, kind, pos, k) and c.errors1:
-        return f"unexpected error in call 1: {c.errors1}"
-    # ---- serve_one #2
-    try:
-        _SERVER.serve_one(conn)  # type: ignore[arg-type]
-    except Exception as e:  # noqa: BLE001
-        return f"second serve_one raised {type(e).__name__}: {str(e)[:80]}"
-    if c.hang:
-        return c.hang
-    c.advance()
-    if c.hang:
-        return c.hang
-    if c.phase != "done2":
-        return f"client did not get an answer to call 2 (phase {c.phase})"
-    if c.error2:
-        return f"call 2 was answered with somebody else's error: {c.error2}"
-    want: Any = [0] if second_is_stream else 5
-    if c.result2 != want:
-        return f"call 2 got {c.result2!r} instead of {want!r}"
-    if conn.unread_request() or conn.unread_response():
-        return f"bytes left over after both calls (request side {conn.unread_request()}, response side {conn.unread_response()})"
-    return ""
+def _run_concrete(sc: Script) -> str:
+    S.script, S.armed = sc, True
+    net = _Net()
+    client_t = _MemTransport(net, "client", "server")
+    server_t = _MemTransport(net, "server", "client")
+    out: dict = {"stage": "start"}
+    ended: list[str] = []
+
+    def serve() -> None:
+        try:
+            _SERVER.serve(server_t)  # type: ignore[arg-type]
+            ended.append("")
+        except BaseException as e:  # noqa: BLE001
+            ended.append(f"{type(e).__name__}: {str(e)[:100]}")
+            net.note["server"] = f" — it raised {type(e).__name__} ({str(e)[:80]}), which the loop neither answers nor handles"
+        finally:
+            net.finish("server")  # NB: like a real thread/process that stops serving, it does not close the pipe
+
+    def client() -> None:
+        def stage() -> None:
+            net.note["client"] = out.get("stage", "")
+
+        try:
+            out_proxy = _StageDict(out, stage)
+            _client_script(client_t, sc, out_proxy, quiesce=net.client_quiesce)
+        except BaseException as e:  # noqa: BLE001
+            out["crash"] = f"{type(e).__name__}: {str(e)[:100]}"
+        finally:
+            client_t.close()
+            net.finish("client")
+
+    ts = threading.Thread(target=serve, daemon=True)
+    tc = threading.Thread(target=client, daemon=True)
+    ts.start()
+    tc.start()
+    tc.join(timeout=60.0)
+    ts.join(timeout=60.0)
+    S.armed = False
+    if tc.is_alive() or ts.is_alive() or net.scheduler_failed:
+        raise HarnessModelError("in-memory scheduler did not terminate")
+    if net.stuck:
+        return net.stuck
+    if ended and ended[0]:
+        return f"serve() raised {ended[0]}"
+    return _judge(sc, out)
 
 
-def _fault_reached(shape: int, kind: int, pos: int, k: int) -> bool:
-    """Does the client *observe* the fault as an RpcError (given what it asks for)?"""
-    if kind == NONE:
-        return False
-    if kind in (STEP_RAISE, STEP_LOG_RAISE):
-        if shape == EXCH:
-            return pos <= k
-        return pos <= k and pos <= _TOTAL + 1
-    if shape in (PROD, EXCH):
-        # header-less stream refused before it started: the stub call returns a session; the error surfaces on
-        # the first tick()/exchange().  close()/cancel() on an unused session discard the answer by design.
-        return k >= 1
-    return True
+class _StageDict(dict):
+    """dict view that mirrors 'stage' into the network monitor (for diagnostics only)."""
+
+    def __init__(self, backing: dict, hook: Any) -> None:
+        super().__init__()
+        self._b, self._hook = backing, hook
+
+    def __setitem__(self, k: Any, v: Any) -> None:
+        self._b[k] = v
+        if k == "stage":
+            self._hook()
+
+    def __getitem__(self, k: Any) -> Any:
+        return self._b[k]
+
+    def get(self, k: Any, d: Any = None) -> Any:
+        return self._b.get(k, d)
+
+    def __contains__(self, k: Any) -> bool:
+        return k in self._b
 
 
 def _conc(x: int, lo: int, hi: int) -> int:
@@ -681,14 +675,12 @@ def _concb(b: bool) -> bool:
 
 
 # ---------------------------------------------------------------------------
-# real replay: pipe pair, RpcServer.serve thread, real client API, watchdog
+# real replay: pipe pair, RpcServer.serve thread, the same client script, watchdog
 # ---------------------------------------------------------------------------
 
 
-def _real(shape: int, kind: int, pos: int, ret: int, k: int, cancel: bool, second_is_stream: bool) -> str | None:
-    from vgi_rpc.rpc import RpcConnection
-
-    S.kind, S.pos, S.ret, S.armed = kind, pos, ret, True
+def _real(sc: Script) -> str | None:
+    S.script, S.armed = sc, True
     client_t, server_t = make_pipe_pair()
     server = srv.RpcServer(Svc, Impl(), ipc_validation=IpcValidation.FULL)
     died: list[BaseException] = []
@@ -703,43 +695,9 @@ def _real(shape: int, kind: int, pos: int, ret: int, k: int, cancel: bool, secon
     st.start()
     out: dict = {"stage": "start"}
 
-    def client() -> None:
-        with RpcConnection(Svc, client_t) as proxy:
-            try:
-                out["stage"] = "call1"
-                if kind in _REQUEST_LEVEL:
-                    _write_first_request(client_t.writer, shape, kind)
-                    info = _METHODS[_SHAPE_NAME[shape]]
-                    if shape == UNARY:
-                        wire._read_unary_response(ValidatedReader(ipc.open_stream(client_t.reader), IpcValidation.FULL), info, None, None)
-                        session = None
-                    else:
-                        header = wire._read_stream_header(client_t.reader, Hdr, IpcValidation.FULL, None, None) if shape == PROD_H else None
-                        session = cli.StreamSession(client_t.writer, client_t.reader, None, header=header)
-                elif shape == UNARY:
-                    proxy.flaky(a=1)
-                    session = None
-                else:
-                    session = getattr(proxy, _SHAPE_NAME[shape])(n=_TOTAL)
-                if session is not None:
-                    _drive_session(session, shape, k, cancel, out)
-            except RpcError as e:
-                out["err1"] = e.error_type
-            finally:
-                S.armed = False
-            out["stage"] = "call2"
-            try:
-                if second_is_stream:
-                    out["res2"] = [ab.batch.column("v")[0].as_py() for ab in proxy.count(n=1)]
-                else:
-                    out["res2"] = proxy.add(a=2, b=3)
-            except RpcError as e:
-                out["err2"] = f"{e.error_type}: {str(e)[:120]}"
-            out["stage"] = "done"
-
     def client_guarded() -> None:
         try:
-            client()
+            _client_script(client_t, sc, out)
         except BaseException as e:  # noqa: BLE001  (after the watchdog closed the pipes, or a transport error)
             out["crash"] = f"{type(e).__name__}: {e}"
 
@@ -749,6 +707,7 @@ def _real(shape: int, kind: int, pos: int, ret: int, k: int, cancel: bool, secon
     blocked = ct.is_alive()
     stage = out["stage"]
     died_before = list(died)  # what had happened before the teardown below
+    snapshot = dict(out)
     # Teardown.  Never close a reader another thread may be blocked in (BufferedReader.close() would wait for
     # that read forever): close the *write* ends, which delivers EOF to whoever is blocked, then join.
     for w in (server_t.writer, client_t.writer):
@@ -763,20 +722,14 @@ def _real(shape: int, kind: int, pos: int, ret: int, k: int, cancel: bool, secon
         with contextlib.suppress(Exception):
             server_t.reader.close()
     S.armed = False
-    what = f"{_SHAPE_NAME[shape]} / {_KIND_NAME[kind]}" + (f" at step {pos}" if pos else "") + f", client: {k} tick(s) then {'cancel' if cancel else 'close'}"
+    what = "real pipe, " + sc.describe()
     if blocked:
         why = f"; the server's serve() thread had died with {type(died_before[0]).__name__}: {died_before[0]}" if died_before else ""
-        return f"real pipe, {what}: client blocked for >6s in {stage}{why}"
-    if "crash" in out:
-        return f"real pipe, {what}: client failed with {out['crash']}"
-    want: Any = [0] if second_is_stream else 5
-    if "err2" in out:
-        return f"real pipe, {what}: the next call on the same connection was answered with {out['err2']}"
-    if out.get("res2") != want:
-        return f"real pipe, {what}: the next call returned {out.get('res2')!r} instead of {want!r}"
+        return f"{what}: client blocked for >6s in {stage}{why}"
     if died_before:
-        return f"real pipe, {what}: serve() died with {type(died_before[0]).__name__}: {died_before[0]}"
-    return None
+        return f"{what}: serve() died with {type(died_before[0]).__name__}: {died_before[0]}"
+    verdict = _judge(sc, snapshot if blocked else out)
+    return f"{what}: {verdict}" if verdict else None
 
 
 # ---------------------------------------------------------------------------
@@ -786,106 +739,126 @@ def _real(shape: int, kind: int, pos: int, ret: int, k: int, cancel: bool, secon
 _UNARY_KINDS = (NONE, RAISES, RETURNS_NONE, UNKNOWN_METHOD, BAD_REQ_VERSION, PROTO_MISMATCH, PROTO_ABSENT, BAD_SCHEMA, NONE_PARAM)
 
 
-def _replay_unary(a: dict) -> str | None:
-    return _real(UNARY, _UNARY_KINDS[a["kind"]], 0, 0, 0, False, a["second_is_stream"])
+def _sc_unary(a: dict) -> Script:
+    return Script(UNARY, _UNARY_KINDS[a["kind"]], second_is_stream=bool(a["second_is_stream"]))
 
 
 @cond(q=60, t=120, encoded=[srv.RpcServer.serve_one, srv.RpcServer._serve_unary, wire._read_request, wire._read_unary_response],
-      bound="unary call: 9 outcomes x 2 follow-up calls (finite grid)", replay=_replay_unary,
+      bound="unary call: 9 outcomes x 2 follow-up calls (finite grid)", replay=lambda a: _real(_sc_unary(a)),
       signature=lambda a, c: "C04:unary:" + _KIND_NAME[_UNARY_KINDS[a["kind"]]])
 def unary_call_any_outcome(kind: int, second_is_stream: bool) -> bool:
     """
     pre: 0 <= kind <= 8
     post: _
     """
-    kk = _UNARY_KINDS[_conc(kind, 0, 8)]
-    return _run(UNARY, kk, 0, 0, 0, False, _concb(second_is_stream)) == ""
+    return _run(_sc_unary({"kind": _conc(kind, 0, 8), "second_is_stream": _concb(second_is_stream)})) == ""
 
 
 _MID_SHAPES = (PROD, PROD_H, EXCH)
 _MID_KINDS = (NONE, STEP_RAISE, STEP_LOG_RAISE)
 
 
-def _replay_mid(a: dict) -> str | None:
-    return _real(_MID_SHAPES[a["shape"]], _MID_KINDS[a["kind"]], a["pos"], 0, a["k"], a["cancel"], a["second_is_stream"])
+def _sc_mid(a: dict) -> Script:
+    return Script(_MID_SHAPES[a["shape"]], _MID_KINDS[a["kind"]], a["pos"], 0, a["k"], bool(a["cancel"]), bool(a["second_is_stream"]))
 
 
 @cond(q=90, t=400, encoded=[srv.RpcServer.serve_one, srv.RpcServer._serve_stream, wire._read_batch_with_log_check, wire._drain_stream],
       bound="3 stream shapes x {ok, process raises, logs then raises} x step 1..3 x client 0..%d ticks x {close, cancel} x 2 follow-ups" % _K,
-      replay=_replay_mid, signature=lambda a, c: "C04:midstream:" + _KIND_NAME[_MID_KINDS[a["kind"]]])
+      replay=lambda a: _real(_sc_mid(a)), signature=lambda a, c: "C04:midstream:" + _KIND_NAME[_MID_KINDS[a["kind"]]])
 def stream_midstream_any_outcome(shape: int, kind: int, pos: int, k: int, cancel: bool, second_is_stream: bool) -> bool:
     """
     pre: 0 <= shape <= 2 and 0 <= kind <= 2 and 1 <= pos <= 3 and 0 <= k <= _K and (kind != 0 or pos == 1)
     post: _
     """
-    kk = _MID_KINDS[_conc(kind, 0, 2)]
-    return _run(_MID_SHAPES[_conc(shape, 0, 2)], kk, _conc(pos, 1, 3), 0, _conc(k, 0, _K), _concb(cancel), _concb(second_is_stream)) == ""
+    a = {"shape": _conc(shape, 0, 2), "kind": _conc(kind, 0, 2), "pos": _conc(pos, 1, 3), "k": _conc(k, 0, _K), "cancel": _concb(cancel), "second_is_stream": _concb(second_is_stream)}
+    return _run(_sc_mid(a)) == ""
 
 
 _PRE_KINDS_H = (RAISES, BAD_SCHEMA, NONE_PARAM, PROTO_MISMATCH, PROTO_ABSENT, BAD_REQ_VERSION, UNKNOWN_METHOD)
 
 
-def _replay_pre_h(a: dict) -> str | None:
-    return _real(PROD_H, _PRE_KINDS_H[a["kind"]], 0, 0, a["k"], a["cancel"], a["second_is_stream"])
+def _sc_pre_h(a: dict) -> Script:
+    return Script(PROD_H, _PRE_KINDS_H[a["kind"]], 0, 0, a["k"], bool(a["cancel"]), bool(a["second_is_stream"]))
 
 
 @cond(q=60, t=120, encoded=[srv.RpcServer.serve_one, srv.RpcServer._serve_stream, wire._read_header_batch],
       bound="header-declaring producer: 7 pre-stream rejections x client 0..%d ticks x {close, cancel} x 2 follow-ups" % _K,
-      replay=_replay_pre_h, signature=lambda a, c: "C04:prestream:declared-header:" + _KIND_NAME[_PRE_KINDS_H[a["kind"]]])
+      replay=lambda a: _real(_sc_pre_h(a)), signature=lambda a, c: "C04:prestream:declared-header:" + _KIND_NAME[_PRE_KINDS_H[a["kind"]]])
 def stream_rejected_before_start_declared_header(kind: int, k: int, cancel: bool, second_is_stream: bool) -> bool:
     """
     pre: 0 <= kind <= 6 and 0 <= k <= _K
     post: _
     """
-    kk = _PRE_KINDS_H[_conc(kind, 0, 6)]
-    return _run(PROD_H, kk, 0, 0, _conc(k, 0, _K), _concb(cancel), _concb(second_is_stream)) == ""
+    a = {"kind": _conc(kind, 0, 6), "k": _conc(k, 0, _K), "cancel": _concb(cancel), "second_is_stream": _concb(second_is_stream)}
+    return _run(_sc_pre_h(a)) == ""
 
 
 _PRE_KINDS_NOH = (RAISES, BAD_SCHEMA, NONE_PARAM, PROTO_MISMATCH, PROTO_ABSENT)
 _NOH_SHAPES = (PROD, EXCH)
 
 
-def _replay_pre_noh(a: dict) -> str | None:
-    return _real(_NOH_SHAPES[a["shape"]], _PRE_KINDS_NOH[a["kind"]], 0, 0, a["k"], a["cancel"], a["second_is_stream"])
+def _sc_pre_noh(a: dict) -> Script:
+    return Script(_NOH_SHAPES[a["shape"]], _PRE_KINDS_NOH[a["kind"]], 0, 0, a["k"], bool(a["cancel"]), bool(a["second_is_stream"]))
 
 
-@cond(q=60, t=120, encoded=[srv.RpcServer.serve_one, srv.RpcServer._serve_stream],
+@cond(q=60, t=120, encoded=[srv.RpcServer.serve_one, srv.RpcServer._serve_stream, srv.RpcServer._drain_unopened_stream_input] if hasattr(srv.RpcServer, "_drain_unopened_stream_input") else [srv.RpcServer.serve_one, srv.RpcServer._serve_stream],
       bound="header-less producer/exchange: 5 pre-stream rejections the server can attribute to a stream method x client 0..%d ticks x {close, cancel} x 2 follow-ups" % _K,
-      replay=_replay_pre_noh, signature=lambda a, c: "C04:prestream:headerless-input-stream-left-unread")
+      replay=lambda a: _real(_sc_pre_noh(a)), signature=lambda a, c: "C04:prestream:headerless:" + _KIND_NAME[_PRE_KINDS_NOH[a["kind"]]])
 def stream_rejected_before_start_headerless(shape: int, kind: int, k: int, cancel: bool, second_is_stream: bool) -> bool:
     """
     pre: 0 <= shape <= 1 and 0 <= kind <= 4 and 0 <= k <= _K
     post: _
     """
-    kk = _PRE_KINDS_NOH[_conc(kind, 0, 4)]
-    return _run(_NOH_SHAPES[_conc(shape, 0, 1)], kk, 0, 0, _conc(k, 0, _K), _concb(cancel), _concb(second_is_stream)) == ""
+    a = {"shape": _conc(shape, 0, 1), "kind": _conc(kind, 0, 4), "k": _conc(k, 0, _K), "cancel": _concb(cancel), "second_is_stream": _concb(second_is_stream)}
+    return _run(_sc_pre_noh(a)) == ""
 
 
-def _replay_header_none(a: dict) -> str | None:
-    return _real(PROD_H, HEADER_NONE, 0, 0, a["k"], a["cancel"], a["second_is_stream"])
+def _sc_hnone(a: dict) -> Script:
+    return Script(PROD_H, HEADER_NONE, 0, 0, a["k"], bool(a["cancel"]), bool(a["second_is_stream"]))
 
 
 @cond(q=40, t=90, encoded=[srv.RpcServer._serve_stream, wire._write_stream_header],
       bound="header-declaring producer returning header=None x client 0..%d ticks x {close, cancel} x 2 follow-ups" % _K,
-      replay=_replay_header_none, signature=lambda a, c: "C04:init:declared-header-none-escapes-serve-one")
+      replay=lambda a: _real(_sc_hnone(a)), signature=lambda a, c: "C04:init:declared-header-none-escapes-serve-one")
 def stream_declared_header_missing(k: int, cancel: bool, second_is_stream: bool) -> bool:
     """
     pre: 0 <= k <= _K
     post: _
     """
-    return _run(PROD_H, HEADER_NONE, 0, 0, _conc(k, 0, _K), _concb(cancel), _concb(second_is_stream)) == ""
+    return _run(_sc_hnone({"k": _conc(k, 0, _K), "cancel": _concb(cancel), "second_is_stream": _concb(second_is_stream)})) == ""
 
 
-def _replay_non_stream(a: dict) -> str | None:
-    return _real(_MID_SHAPES[a["shape"]], NON_STREAM, 0, a["ret"], a["k"], a["cancel"], a["second_is_stream"])
+def _sc_nonstream(a: dict) -> Script:
+    return Script(_MID_SHAPES[a["shape"]], NON_STREAM, 0, a["ret"], a["k"], bool(a["cancel"]), bool(a["second_is_stream"]))
 
 
 @cond(q=60, t=120, encoded=[srv.RpcServer._serve_stream],
       bound="3 stream shapes x return value {None, 42} x client 0..%d ticks x {close, cancel} x 2 follow-ups" % _K,
-      replay=_replay_non_stream, signature=lambda a, c: "C04:init:non-stream-return-escapes-serve-one")
+      replay=lambda a: _real(_sc_nonstream(a)), signature=lambda a, c: "C04:init:non-stream-return-escapes-serve-one")
 def stream_method_returns_non_stream(shape: int, ret: int, k: int, cancel: bool, second_is_stream: bool) -> bool:
     """
     pre: 0 <= shape <= 2 and 0 <= ret <= 1 and 0 <= k <= _K
     post: _
     """
-    return _run(_MID_SHAPES[_conc(shape, 0, 2)], NON_STREAM, 0, _conc(ret, 0, 1), _conc(k, 0, _K), _concb(cancel), _concb(second_is_stream)) == ""
+    a = {"shape": _conc(shape, 0, 2), "ret": _conc(ret, 0, 1), "k": _conc(k, 0, _K), "cancel": _concb(cancel), "second_is_stream": _concb(second_is_stream)}
+    return _run(_sc_nonstream(a)) == ""
+
+
+_ALL_SHAPES = (UNARY, PROD, PROD_H, EXCH)
+_LOG_MAX = 4
+
+
+def _sc_log(a: dict) -> Script:
+    return Script(_ALL_SHAPES[a["shape"]], NONE, 0, 0, a["k"], bool(a["cancel"]), bool(a["second_is_stream"]), log_at=a["log_at"], log_sticky=bool(a["sticky"]))
+
+
+@cond(q=90, t=300, encoded=[wire._read_unary_response, wire._read_header_batch, wire._read_batch_with_log_check, wire._dispatch_log_or_error, cli.StreamSession.close, cli.StreamSession.cancel],
+      bound="4 method shapes (service logs at init and before every item / twice before a unary result) x client on_log raising at message 1..%d {once | from then on} x client 0..%d ticks x {close, cancel} x 2 follow-ups" % (_LOG_MAX, _K),
+      replay=lambda a: _real(_sc_log(a)), signature=lambda a, c: "C04:client-log-callback-raises:" + ("unary" if a["shape"] == 0 else "stream"))
+def client_log_callback_raises(shape: int, log_at: int, sticky: bool, k: int, cancel: bool, second_is_stream: bool) -> bool:
+    """
+    pre: 0 <= shape <= 3 and 1 <= log_at <= _LOG_MAX and 0 <= k <= _K and (shape != 0 or (k == 0 and not cancel))
+    post: _
+    """
+    a = {"shape": _conc(shape, 0, 3), "log_at": _conc(log_at, 1, _LOG_MAX), "sticky": _concb(sticky), "k": _conc(k, 0, _K), "cancel": _concb(cancel), "second_is_stream": _concb(second_is_stream)}
+    return _run(_sc_log(a)) == ""
